@@ -187,6 +187,7 @@ type bsConc struct {
 	file  map[string]string
 	mult  float64
 	zero  string
+	negFrobs bool
 }
 
 func bsCaseNo(id json.RawMessage) int64 {
@@ -208,15 +209,20 @@ func newBsConc(id json.RawMessage) *bsConc {
 	c.names = strings.NewReplacer("p1", fn[0], "p2", fn[1], "p3", fn[2])
 	c.mult = bsMults[c.rng.Intn(len(bsMults))]
 	c.zero = []string{"0", "0.0", "0.000", "0e0"}[c.rng.Intn(4)]
+	c.negFrobs = c.rng.Intn(3) == 0
 	return c
 }
 
 // value text as written in the file, and the float it denotes
-func (c *bsConc) valueText(v int) (string, float64) {
+func (c *bsConc) valueText(v int, unit string) (string, float64) {
 	if v == 0 {
 		return c.zero, 0
 	}
 	f := float64(v) * c.mult
+	if c.negFrobs && unit == "frobs" {
+		// a signed metric: every measurement of the custom unit is negative in this case
+		f = -f
+	}
 	s := strconv.FormatFloat(f, 'g', -1, 64)
 	g, err := strconv.ParseFloat(s, 64)
 	if err != nil {
@@ -261,7 +267,7 @@ func (c *bsConc) render(lines []bsLine) string {
 			}
 			b.WriteString(name + c.sep() + strconv.Itoa(1+c.rng.Intn(1000000)))
 			for _, v := range l.Vals {
-				t, _ := c.valueText(v.V)
+				t, _ := c.valueText(v.V, v.U)
 				b.WriteString(c.sep() + t + c.sep() + v.U)
 			}
 			b.WriteString("\n")
@@ -777,7 +783,7 @@ func bsReplay(raw json.RawMessage, bin, baseDir string) Verdict {
 			ec := et.cells[cell.R-1][cell.C-1]
 			var vals []float64
 			for _, s := range cell.S {
-				_, f := cc.valueText(s.V)
+				_, f := cc.valueText(s.V, s.U)
 				vals = append(vals, bsBase(f, s.U))
 			}
 			ec.present = true
